@@ -225,10 +225,19 @@ int main(int argc, char** argv) {
       for (int alpha = 0; alpha <= 1; alpha++)
         for (int cw : {8, 16, 32, 64}) {
           if (cw != 8 && (w + h) % 3 != 0 && quick) continue;
-          Image im(w, h, alpha, cw);
+          // a third of the images reach their channel width / alpha flag through the conversion calls rather than the
+          // constructor (what is saved must describe the image as it is now)
+          bool converted = r.chance(33);
+          static const int WIDTHS[] = {8, 16, 32, 64};
+          Image im(w, h, converted ? (bool)r.chance(50) : (bool)alpha, converted ? WIDTHS[r.below(4)] : cw);
           uint8_t* d = (uint8_t*)im.get_data();
           int style = (int)r.below(3);
           for (size_t i = 0; i < im.get_data_size(); i++) d[i] = style == 0 ? (uint8_t)r.below(256) : style == 1 ? (uint8_t)(i * 37 + 11) : (uint8_t)(r.chance(50) ? 0 : 255);
+          if (converted) {
+            if (r.chance(50)) im.set_channel_width((uint8_t)WIDTHS[r.below(4)]);
+            im.set_channel_width((uint8_t)cw);
+            im.set_has_alpha((bool)alpha);
+          }
           own_formats(im, r, 400);
           tr.histories++;
         }
